@@ -227,9 +227,9 @@ theorem contract_ledger_ExistUnminedTx (O : Oracle) (h : LedgerBacked O) :
 /-- the model-level fact behind it: a successful ExistsTx returns a transaction that has the requested output -/
 theorem ledger_existsTx_index {c : MW.Model.Ledger.Ctx} {s : MW.Model.Ledger.Store} {chain : List MW.Model.Ledger.Block}
     (hI : MW.Lemmas.Ledger.Inv c s chain) (hV : MW.Lemmas.Ledger.ChainValid c.own chain)
-    (hid : MW.Lemmas.ApiBacked.TxIdsAgree chain c.node) {cur tx : String} {idx : Nat}
+    (hid : MW.Lemmas.ApiBacked.TxIdsAgree chain c.node) {len : MW.Model.Ledger.Tx → Nat} {cur tx : String} {idx : Nat}
     {t : MW.Model.Ledger.Tx} {blk : MW.Model.Ledger.BlockMeta}
-    (h : MW.Model.ApiLedger.existsTx s c.node cur tx idx = some (t, blk)) : idx < t.outs.length ∧ t.id = tx :=
+    (h : MW.Model.ApiLedger.existsTx len s c.node cur tx idx = some (t, blk)) : idx < t.outs.length ∧ t.id = tx :=
   MW.Lemmas.ApiBacked.existsTx_index hI hV hid h
 
 /-- … with C01's own hypotheses only (no `TxIdsAgree`): when the wallet's chain is a prefix of the node's valid best
@@ -237,15 +237,15 @@ theorem ledger_existsTx_index {c : MW.Model.Ledger.Ctx} {s : MW.Model.Ledger.Sto
     valid chain has no duplicate transaction id (`txIdsAgree_of_prefix`) -/
 theorem ledger_existsTx_index_prefix {c : MW.Model.Ledger.Ctx} {s : MW.Model.Ledger.Store} {chain rest : List MW.Model.Ledger.Block}
     (hI : MW.Lemmas.Ledger.Inv c s chain) (hN : c.node.chain = chain ++ rest)
-    (hV : MW.Lemmas.Ledger.ChainValid c.own c.node.chain) {cur tx : String} {idx : Nat}
+    (hV : MW.Lemmas.Ledger.ChainValid c.own c.node.chain) {len : MW.Model.Ledger.Tx → Nat} {cur tx : String} {idx : Nat}
     {t : MW.Model.Ledger.Tx} {blk : MW.Model.Ledger.BlockMeta}
-    (h : MW.Model.ApiLedger.existsTx s c.node cur tx idx = some (t, blk)) : idx < t.outs.length ∧ t.id = tx :=
+    (h : MW.Model.ApiLedger.existsTx len s c.node cur tx idx = some (t, blk)) : idx < t.outs.length ∧ t.id = tx :=
   MW.Lemmas.ApiBacked.existsTx_index_prefix hI hN hV h
 
 /-- its hypotheses hold for the worked store (node chain = wallet chain G – b1 – c2, `rest = []`) with a successful lookup -/
 example : MW.Lemmas.ApiBacked.exCtx.node.chain = MW.Lemmas.ApiBacked.exChain ++ [] ∧
     MW.Lemmas.Ledger.ChainValid MW.Lemmas.ApiBacked.exCtx.own MW.Lemmas.ApiBacked.exCtx.node.chain ∧
-    (MW.Model.ApiLedger.existsTx MW.Lemmas.ApiBacked.exStore MW.Lemmas.ApiBacked.exCtx.node "w1" "c1" 0).isSome = true :=
+    (MW.Model.ApiLedger.existsTx MW.Lemmas.ApiBacked.exLen MW.Lemmas.ApiBacked.exStore MW.Lemmas.ApiBacked.exCtx.node "w1" "c1" 0).isSome = true :=
   ⟨rfl, MW.Lemmas.ApiBacked.exValid, by rw [MW.Lemmas.ApiBacked.exExists0]; rfl⟩
 
 /-- CONTRACTS (amount, from the C15 model): `strings.Split(s, ".")` has ≥ 1 part (Dec.splitDot), the decimal string
